@@ -70,10 +70,14 @@ def check_stream(ctx, L, ex):
         # a malformed stream (still cut into the same packets): compare complete warn-mode decodes
         k = data.draw(st.integers(0, len(msgs) - 1))
         m = bytearray(msgs[k])
-        if data.draw(st.booleans()) and len(m) >= 6:
+        kind = data.draw(st.sampled_from(["size", "size", "tag", "flip", "flip"]))
+        if kind == "size" and len(m) >= 6:
             # a wrong size field, including ones smaller than the header and larger than the packet
             nv = data.draw(st.sampled_from([0, 1, 5, 9, 10, 11, len(m) - 1, len(m) + 1, len(m) + 4, 0xFFFFFFFF]))
             m[2:6] = max(0, nv).to_bytes(4, "big")
+        elif kind == "tag" and len(m) >= 2:
+            # a tag outside the command tags (a container must carry the packet all the same)
+            m[0:2] = data.draw(st.sampled_from([0x00C4, 0x8000, 0x8003, 0xFFFF, 0x0000])).to_bytes(2, "big")
         elif m:
             pos = data.draw(st.integers(0, len(m) - 1))
             m[pos] ^= data.draw(st.sampled_from([0x01, 0x80, 0xFF]))
